@@ -368,7 +368,40 @@ def rule_small_scope(src, rep, it, counts):
         if res[0] == "error":
             raise AnalysisError(res[1])
         bad.setdefault(res[0], []).append(res[1:])
-    groups = {"X5-never-raises": "fmtstr(s) for every string of the enumeration",
+    # histories: what fmtstr(s) gives must not depend on what was converted before in the same process
+    sgr_hi = "\x1b[31mhi\x1b[39m"
+    histories = [
+        ("fmtstr(F) for a FmtStr F that holds %r as raw text" % sgr_hi, ("raw", sgr_hi), [sgr_hi]),
+        ("fmtstr of a string cut inside a parameter list", ("str", "ok \x1b[3"), ["ok \x1b[31mfailed\n"]),
+        ("fmtstr of a string cut after a separator", ("str", "a\x1b[1;"), ["a\x1b[1;31mb"]),
+        ("fmtstr of a string cut inside an extended colour", ("str", "\x1b[38;5"), ["\x1b[38;5;196mred\x1b[0m x"]),
+        ("the same unsupported sequence twice", ("str", "x\x1b[38my\x1b[3Az"), ["x\x1b[38my\x1b[3Az", "p\x1b[90mq"]),
+        ("a supported string twice", ("str", "\x1b[1mb\x1b[0m"), ["\x1b[1mb\x1b[0m", "\x1b[1mb\x1b[0m"]),
+    ]
+    saved = it
+    for title, first, later in histories:
+        it = new_interp(src, check_views=True)
+        try:
+            if first[0] == "raw":
+                e = it.call1("formatstring", "fmtstr", "")
+                raw = it.callm(e[1], "__add__", first[1]) if e[0] == "ok" else e
+                if raw[0] != "ok":
+                    raise AnalysisError("building a FmtStr with raw escape text gives %s" % (raw,))
+                it.call1("formatstring", "fmtstr", raw[1])
+            else:
+                it.call1("formatstring", "fmtstr", first[1])
+            for s_ in later:
+                res = one(s_)
+                rep.case(True)
+                if res is not None:
+                    if res[0] == "error":
+                        raise AnalysisError(res[1])
+                    bad.setdefault("X6-a-conversion-does-not-depend-on-earlier-ones", []).append((res[1], "after %s: [%s] %s" % (title, res[0], res[2])))
+                    break
+        finally:
+            it = saved
+    groups = {"X6-a-conversion-does-not-depend-on-earlier-ones": "fmtstr(s) after other conversions in the same process",
+              "X5-never-raises": "fmtstr(s) for every string of the enumeration",
               "X5-plain-text-verbatim-and-unformatted": "strings without ESC / 0x9b in the enumeration",
               "X5-text-only-loses-characters": "result text vs input for every string of the enumeration",
               "X5-ordinary-characters-kept": "characters outside escape sequences for every string of the enumeration",
